@@ -327,7 +327,7 @@ impl<'a> IExec<'a> {
             Bytes::new(env),
         )
             .into_val(env);
-        let xfer: SVec<Val> = (self.h[spender].clone(), self.gas(), gas + gas_delta).into_val(env);
+        let xfer: SVec<Val> = (self.h[spender].clone(), self.gas(), gas.wrapping_add(gas_delta)).into_val(env);
         AuthNode::new(&self.gas(), "pay_gas", pay).with(AuthNode::new(&self.tok_addr[gas_t], "transfer", xfer))
     }
 
@@ -374,7 +374,7 @@ impl<'a> IExec<'a> {
             IAmt::Neg => -1,
             IAmt::Lit(v) => *v as i128,
             IAmt::Balance => bal,
-            IAmt::BalancePlus1 => bal + 1,
+            IAmt::BalancePlus1 => bal.saturating_add(1),
         };
         let dchain = self.chain(chain);
         let dbytes = DSTS[dst as usize % DSTS.len()];
@@ -418,9 +418,9 @@ impl<'a> IExec<'a> {
                     }
                     if let Some(t) = t_opt {
                         let take: AuthNode = if native {
-                            AuthNode::new(&self.tok_addr[t], "burn", (self.h[ci].clone(), a + delta).into_val(&env))
+                            AuthNode::new(&self.tok_addr[t], "burn", (self.h[ci].clone(), a.wrapping_add(delta)).into_val(&env))
                         } else {
-                            AuthNode::new(&self.tok_addr[t], "transfer", (self.h[ci].clone(), its.clone(), a + delta).into_val(&env))
+                            AuthNode::new(&self.tok_addr[t], "transfer", (self.h[ci].clone(), its.clone(), a.wrapping_add(delta)).into_val(&env))
                         };
                         root = root.with(take);
                     }
@@ -429,7 +429,7 @@ impl<'a> IExec<'a> {
                 (vec![AuthEntry { who: self.h[w].clone(), root }], w == ci && full)
             }
         };
-        let gas_bal_after_take = if Some(gas_t) == t_opt { bal - a } else { self.bal(gas_t, ci) };
+        let gas_bal_after_take = if Some(gas_t) == t_opt { bal.wrapping_sub(a) } else { self.bal(gas_t, ci) };
         let expect: Option<&'static str> = if a <= 0 {
             if a == 0 { ctx.count("probe.outbound_amount_zero"); }
             Some("non-positive-amount")
